@@ -1,11 +1,11 @@
 package checks
 
 import (
-	"strconv"
-	"math"
 	"bytes"
 	"encoding/json"
+	"math"
 	"sort"
+	"strconv"
 	"strings"
 
 	"github.com/getkin/kin-openapi/openapi3"
@@ -340,7 +340,9 @@ func primeCustomRegexCompiler(atoms []gen.S) int {
 			continue
 		}
 		if sc, err := kinSchema(gen.S{"type": "string", "pattern": p}); err == nil {
-			core.Guard(func() { sc.VisitJSON("\x00 no pattern of the workload matches this", openapi3.SetSchemaRegexCompiler(permissive)) })
+			core.Guard(func() {
+				sc.VisitJSON("\x00 no pattern of the workload matches this", openapi3.SetSchemaRegexCompiler(permissive))
+			})
 			n++
 		}
 	}
